@@ -65,7 +65,16 @@ func genAutoEntry(r *vh.Rng, cc proj.CropCal) proj.AutoEntry {
 	if r.Chance(0.15) {
 		a.IrrMax = []int{0, 0, 1, 3}[r.Intn(4)] // a daily maximum of 0 mm: irrigation switched off for the crop (shipped row AA)
 	}
+	autoEntryBoundaries(&a)
 	return a
+}
+
+// c16Spell: one of the four spellings of an on/off value.
+func c16Spell(b bool, i int) string {
+	if b {
+		return []string{"1", "on", "yes", "true"}[((i%4)+4)%4]
+	}
+	return []string{"0", "off", "no", "false"}[((i%4)+4)%4]
 }
 
 func onOffSch(b bool) string {
@@ -96,6 +105,13 @@ func c16Run(c *vh.Ctx, r *vh.Rng, k int, root string, cases, impl *[]string, inp
 	if r.Chance(0.3) {
 		p.RotForeign = r.Range(1, 3) // rotation file shared with other fields, ordered by year
 	}
+	switch k % 7 {
+	case 5:
+		p.UseYearFiles() // one weather file per year: the file of the next year is loaded at the turn of the year (rain forecast of automatic irrigation / fertilisation on 30 and 31 December)
+	case 6:
+		p.WeatherFmt = 2 // day-of-year layout
+		p.Cfg["WeatherFileFormat"] = "2"
+	}
 	cs := c16Prepare(r, p, k, (k/16)%4)
 	autoMan, autoHar, autoIrr, autoFert, sw, format, table, entries, s0 := cs.AutoMan, cs.AutoHar, cs.AutoIrr, cs.AutoFert, cs.Sw, cs.Format, cs.Table, cs.Entries, cs.S0
 	replay := map[string]interface{}{"project": p, "automan": entries, "switches": sw, "date_format": format,
@@ -108,7 +124,12 @@ func c16Run(c *vh.Ctx, r *vh.Rng, k int, root string, cases, impl *[]string, inp
 	for i := 1; i < nRot; i++ {
 		premiseAll = premiseAll && premise[i]
 	}
-	tr, err := runTraced(c, root, p, len(p.Rot)+4, func(root string) error { return p.WriteAutoman(root, entries) })
+	tr, err := runTraced(c, root, p, len(p.Rot)+4, func(root string) error {
+		if err := p.WriteAutoman(root, entries); err != nil {
+			return err
+		}
+		return c16TrimAutoman(root, p, cs, k)
+	})
 	if err != nil {
 		c.Violate("search", "harness:write", err.Error(), replay)
 		return
@@ -126,6 +147,11 @@ func c16Run(c *vh.Ctx, r *vh.Rng, k int, root string, cases, impl *[]string, inp
 	}
 	c.Count("switches:" + sw)
 	days, snap := tr.Days, tr.Snap
+	if snap.AutoMan != autoMan || snap.AutoHar != autoHar || snap.AutoIrr != autoIrr || snap.AutoFert != autoFert {
+		c.Violate("search", "switches:not-effective", fmt.Sprintf("config.yml says AutoSowingHarvest: %s AutoHarvest: %s AutoIrrigation: %s AutoFertilization: %s, the run works with %v %v %v %v",
+			p.Cfg["AutoSowingHarvest"], p.Cfg["AutoHarvest"], p.Cfg["AutoIrrigation"], p.Cfg["AutoFertilization"], snap.AutoMan, snap.AutoHar, snap.AutoIrr, snap.AutoFert), replay)
+		return
+	}
 	lastDay := days[len(days)-1].Zeit
 
 	// ---------------------------------------------------------------- configured windows vs arrays after Input
@@ -426,7 +452,8 @@ type c16Case struct {
 func c16Prepare(r *vh.Rng, p *proj.Project, k, format int) *c16Case {
 	start, end := p.Start(), p.End()
 	autoMan, autoHar, autoIrr, autoFert := k&1 != 0, k&2 != 0, k&4 != 0, k&8 != 0
-	p.Cfg["AutoSowingHarvest"], p.Cfg["AutoHarvest"], p.Cfg["AutoIrrigation"], p.Cfg["AutoFertilization"] = onOffSch(autoMan), onOffSch(autoHar), onOffSch(autoIrr), onOffSch(autoFert)
+	// the four switches in the spellings config.yml accepts (1/0, on/off, yes/no, true/false), rotating with the run number
+	p.Cfg["AutoSowingHarvest"], p.Cfg["AutoHarvest"], p.Cfg["AutoIrrigation"], p.Cfg["AutoFertilization"] = c16Spell(autoMan, k/16), c16Spell(autoHar, k/16+1), c16Spell(autoIrr, k/16+2), c16Spell(autoFert, k/16+3)
 	sw := fmt.Sprintf("man%s-har%s-irr%s-fert%s", onOffSch(autoMan), onOffSch(autoHar), onOffSch(autoIrr), onOffSch(autoFert))
 	annD, annM := r.Range(1, 28), r.Range(1, 12)
 	s0 := start.Z()
@@ -475,6 +502,14 @@ func c16Prepare(r *vh.Rng, p *proj.Project, k, format int) *c16Case {
 	if autoFert {
 		for i := range p.Rot {
 			if r.Chance(0.2) {
+				p.Rot[i].AutOrg = 1
+			}
+		}
+	} else {
+		// `autorg` = 1 in the rotation file without automatic fertilisation (the flag is read, nothing is applied);
+		// decided from values already drawn
+		for i := range p.Rot {
+			if (p.Rot[i].Rex+3*i+k)%6 == 0 {
 				p.Rot[i].AutOrg = 1
 			}
 		}
